@@ -126,6 +126,9 @@ func (f *c02Forest) validPath(rng *Rng, base string) string {
 	for i := 0; i < n; i++ {
 		r := rng.Intn(10)
 		if r == 0 {
+			if cur == f.root {
+				continue // stay inside the forest: the model knows only its links
+			}
 			parts = append(parts, "..")
 			cur = filepath.Dir(cur)
 			continue
@@ -141,7 +144,7 @@ func (f *c02Forest) validPath(rng *Rng, base string) string {
 		e := ents[rng.Intn(len(ents))]
 		parts = append(parts, e.Name())
 		next, err := filepath.EvalSymlinks(filepath.Join(cur, e.Name()))
-		if err != nil {
+		if err != nil || !strings.HasPrefix(next, f.root) {
 			break
 		}
 		st, err := os.Stat(next)
